@@ -32,5 +32,10 @@ Proof.
   rewrite forallb_forall in H. specialize (H m Hm). rewrite forallb_forall in H. exact (H fs Hfs).
 Qed.
 
+(* nothing in the call graphs of the eight ExportGenesis / InitGenesis pages, limits, slices or
+   bounds an iteration (or it has been reviewed) *)
+Theorem genesis_sites_reviewed : forallb site_reviewed gen_genesis_sites = true.
+Proof. vm_compute. reflexivity. Qed.
+
 Theorem translator_understood_everything : gen_unknown = [].
 Proof. reflexivity. Qed.
